@@ -228,6 +228,43 @@ def run(ctx) -> None:
                     )
                     break
 
+        # ---- fresh processes with different string-hash seeds: nothing in a report (positions, order, message TEXT) may depend on
+        # the iteration order of a set or dict keyed by strings; the file collects idioms where a check MERGES several operands
+        hs = d / "hashseed"
+        hs.mkdir()
+        (hs / "pyproject.toml").write_text("")
+        (hs / "merge.py").write_text(
+            "import os\n"
+            "def m(line: str, s: str, x: object, n: int, d1: dict[str, int], d2: dict[str, int], names: list[str]) -> None:\n"
+            "    a = line.rstrip(\"\\n\").rstrip(\" \\t\\r;,\")\n"
+            "    b = s.lstrip(\"ab\").lstrip(\"cdefghij\")\n"
+            "    c = s.strip(\"xyz\").strip(\"uvw012\")\n"
+            "    e = isinstance(x, (int, str)) or isinstance(x, (float, bytes, bytearray))\n"
+            "    f = s.startswith(\"alpha\") or s.startswith(\"beta\") or s.startswith(\"gamma\")\n"
+            "    g = n == 1 or n == 2 or n == 3 or n == 4\n"
+            "    h = {**d1, **d2, \"k\": 1, \"j\": 2}\n"
+            "    i = s in (\"q\", \"r\") or s in {\"t\", \"u\", \"v\", \"w\"}\n"
+            "    names.append(a); names.append(b); names.append(c)\n"
+            "    print(e, f, g, h, i, os.path.join(\"p\", s), os.path.splitext(s)[1])\n"
+        )
+        (hs / "clone_159.py").write_bytes((core.REPO / "test" / "data" / "err_159.py").read_bytes())
+        seeds = ["0", "1", "2", "3", "42"] if ctx.quick else [str(k) for k in range(12)]
+        with ThreadPoolExecutor(8) as ex:
+            houts = list(ex.map(lambda sd: core.refurb_cli(["merge.py", "clone_159.py", "--enable-all", "--quiet"], cwd=hs, env_extra={"PYTHONHASHSEED": sd}), seeds))
+        for sd, o in zip(seeds[1:], houts[1:]):
+            res.case(("hashseed", sd))
+            res.bump("hashseed_runs")
+            if o[:2] != houts[0][:2]:
+                a_l, b_l = houts[0][1].split("\n"), o[1].split("\n")
+                diff = [(x, y) for x, y in zip(a_l, b_l) if x != y][:3]
+                res.violate(
+                    f"the report depends on the interpreter's string-hash seed (PYTHONHASHSEED={seeds[0]} vs {sd}): {diff[:1]}",
+                    {"kind": "hash-seed-dependent"},
+                    {"files": {"merge.py": (hs / "merge.py").read_text()}, "argv": ["merge.py", "--enable-all", "--quiet"], "env": {"PYTHONHASHSEED": [seeds[0], sd]}, "differing_lines": diff,
+                     "how": "write merge.py into an empty directory (plus an empty pyproject.toml) and run `PYTHONHASHSEED=<n> python -m refurb merge.py --enable-all --quiet` with both values"},
+                )
+                break
+
         # ---- cache states and concurrency
         warm = cli(d, [*names, "--sort", "filename"])
         res.case(("cache", "warm"))
